@@ -15,7 +15,7 @@ import ast
 import re
 
 from ..core.tree import AnalysisError
-from ..core.astutil import walk_no_nested, call_name, short, src, kwarg
+from ..core.astutil import walk_no_nested, call_name, short, src, kwarg, resolve_local, enclosing_conjuncts
 from ..engines import effects as E
 from ..engines import pathrules as PR
 from ..engines.taintrules import rule_escape_once
@@ -76,30 +76,26 @@ def references(ctx, report):
         for st in stores:
             which = st.targets[0].slice.value
             tagname = "style" if which == "style" else "region"
-            val = src(st.value)
-            guard = None
-            for n in walk_no_nested(fn.node):
-                if isinstance(n, ast.If) and st in n.body:
-                    guard = n.test
+            val = src(resolve_local(fn, st.value)).replace('"', "'")
+            guards = enclosing_conjuncts(fn, st)
+            if guards is None:
+                raise AnalysisError(f"{q}: store of the {which}= reference not located")
             want = f"dfxp.find('{tagname}', {{'xml:id': {val}}})"
-            ok = guard is not None and src(guard).replace('"', "'") == want
+            ok = want in guards
             report.check(ok, "R-DOMINATES", (fn, st), f"{which}= reference is written only after the {tagname} with that id "
-                         "was found in the document", {"guard": src(guard) if guard is not None else None,
-                                                       "required": want}, "3")
+                         "was found in the document", {"dominating_guards": guards, "required": want}, "3")
     for path, q in ((DFXP, "DFXPWriter._recreate_p_tag"), (EXTRAS, "LegacyDFXPWriter._recreate_p_tag")):
         fn = ctx.index.get_function(path, q)
         report.covered(fn)
         stores = [n for n in walk_no_nested(fn.node) if isinstance(n, ast.Assign) and src(n.targets[0]) == "p['style']"]
         for st in stores:
-            guard = None
-            for n in walk_no_nested(fn.node):
-                if isinstance(n, ast.If) and st in n.body:
-                    guard = n.test
-            lit = st.value.value if isinstance(st.value, ast.Constant) else None
+            guards = enclosing_conjuncts(fn, st) or []
+            rv = resolve_local(fn, st.value)
+            lit = rv.value if isinstance(rv, ast.Constant) else None
             want = f"dfxp.find('style', {{'xml:id': '{lit}'}})"
-            ok = guard is not None and src(guard).replace('"', "'") == want
+            ok = want in guards
             report.check(ok, "R-DOMINATES", (fn, st), "style='p' is written only when a <style xml:id='p'> exists in the document",
-                         {"guard": src(guard) if guard is not None else None, "required": want,
+                         {"dominating_guards": guards, "required": want,
                           "why": "asking the caption set instead of the document leaves a dangling reference when the "
                                  "style has no writable attribute and is therefore not emitted"}, "3")
     # region ids
